@@ -1,20 +1,32 @@
 """
 C07 — dynamic typing (xsi:type), substitution groups and xsi:nil obey derivation, block and abstract rules.
 
-Generator: seeded random type hierarchies (complex extension/restriction chains, a simple restriction chain,
-simple-content complex types; abstract flags; block/final on types, blockDefault/finalDefault on the schema)
-x global element declarations (type, block, abstract, nillable, fixed, substitution groups up to two
-levels) x instance variants (EVERY type name as xsi:type + an unknown name + none, nil flag variants,
-content variants); XSD 1.0 and 1.1; a fixed family of XSD 1.1 type-alternative tables.
+Families (all seeded from ctx.rng, XSD 1.0 and 1.1):
+  A. random type hierarchies (complex extension/restriction chains, a simple restriction chain, simple-content
+     complex types; abstract flags; block/final on types, blockDefault/finalDefault on the schema) x global
+     element declarations (type, block, abstract, nillable, fixed, substitution groups up to two levels) x
+     instance variants (EVERY type name as xsi:type + an unknown name + none, nil flag variants, content
+     variants); every (head, member) pair; every substitute x every xsi:type derived from the member's type
+     (+ one underived, + an unknown name): substitution COMBINED with xsi:type;
+  B. "kinds" schemas: builtin types (xs:short..xs:decimal, xs:boolean), xs:anyType / xs:anySimpleType as
+     declared types, list types and their restrictions, unions (random members, nested), restricted unions,
+     simple-content types over simple types and unions (extension and restriction), a complex chain;
+     elements of 11 declared types x 2 random block values; every named type as xsi:type of every element;
+     is_derived on all named pairs x {None, extension, restriction}; get_instance_type on all pairs;
+  C. XSD 1.1 type alternatives: 4 fixed tables, and random tables of random test expressions
+     (@a = 'v', @a != 'v', @a, not(), and, or) evaluated by the Lean model (`evalTest`), by an independent
+     Python reading and by the library (elementpath) on every attribute setting.
 
 For each built schema the type hierarchy and the global elements are introspected (object identity ->
-index, base before derived) and
-  (1) `is_derived(t, u, d)` for ALL pairs x {None, extension, restriction} and `is_blocked(t, e)` for all
-      type x element pairs are compared with the Lean model (XsVerif/Model/Derivation.lean),
+index; base, content, item and member types before the type that uses them) and
+  (1) `is_derived(t, u, d)`, `is_blocked(t, e)`, `get_instance_type` are compared with the Lean model
+      (XsVerif/Model/Derivation.lean) run with the behaviours of the findings that are still `known`
+      switched on (`quirks`); the model's repaired answer is returned too and counted when it differs,
   (2) every instance is validated by the library; the error kinds are compared with the model's
-      `elementErrs` / `substVerdict` / `selectAlt`,
+      `elementErrs` / `substVerdict` / `substXsiErrs` / `selectAlt` / `selectAltT`,
   (3) the property itself is evaluated on the real code against an independent reading computed from the
-      generator's AST (chains over the *declared* bases, effective block = attribute or schema default).
+      generator's AST (chains over the *declared* bases and union members, effective block = attribute or
+      schema default); deviations are failures unless an exact matcher of a known finding applies.
 """
 from __future__ import annotations
 
@@ -30,21 +42,29 @@ AUDIT = 'XsVerif.Audit.C07'
 LEAN_TARGETS = ['XsVerif.Props.C07', 'drv_c07']
 LEANCHECK = ['XsVerif.Model.Derivation', 'XsVerif.Props.C07']
 RULE = ('a case is one (XSD version, schema, element declaration, xsi:type choice, nil variant, content variant) or '
-        'one (schema, head, member) substitution pair or one (alternative table, attribute setting, content); '
+        'one (schema, head, member[, xsi:type]) substitution case or one (kinds schema, type pair) / (kinds schema, '
+        'element, xsi:type) or one (alternative table, attribute setting[, content]); '
         'non-trivial = xsi:type present, or xsi:nil present, or the element has a fixed value, or a substitution / '
         'alternative case; distinct by canonical JSON of (version, built hierarchy, built element, instance)')
 TRUSTED = ['content validity per (governing type, content variant) and fixed-value agreement are parameters of the '
            'theorems (CSem.contentOk / fixedOk); in the correspondence they come from the harness\'s own reading of '
-           'the generated content models (optional element sequences, integer ranges)',
-           'the theorems about is_derived/is_blocked/xsi:type/substitution are proved for hierarchies of complex '
-           'types with complex content; simple and simple-content types are covered by the model and the '
-           'correspondence run and by two small theorems on the simple variant',
-           'XPath tests of type alternatives are evaluated by elementpath (modelled as given booleans)']
-ASSUMPTIONS = ['no union types (the union-member clause of get_instance_type is not modelled; the generator makes none)',
-               'declared element types are named user types, never xs:anyType',
-               'for substitution groups the block set is that of the head element and the head\'s type (as for '
-               'xsi:type); blocks of intermediate types of the chain are not considered by the library nor by '
-               'this check']
+           'the generated content models (optional element sequences, integer ranges); in the kinds family only the '
+           'typing errors (unknown / not derived / blocked / abstract) are compared',
+           'the chain theorems about is_derived/is_blocked/xsi:type/substitution (+ xsi:type) are proved for '
+           'hierarchies of complex types with complex content; for simple types, lists, unions, builtin types, '
+           'simple-content types and the ur-types the model is tied by the correspondence run, with theorems on '
+           'the union clause of get_instance_type, on the simple variants and the requested derivation mode, and '
+           'decide-proved pinned/repaired witnesses of the five recorded defects, replayed on the real code',
+           'XPath tests of type alternatives: the subset {@a = v, @a != v, @a, not, and, or} is modelled and '
+           'evaluated in Lean; other XPath is outside']
+ASSUMPTIONS = ['for substitution groups the block set is that of the head element and the head\'s type (as for '
+               'xsi:type); blocks of intermediate types of the chain are not consulted by the library (XSD '
+               'Substitution Group OK (Transitive) clause 2.3 counts them): modelled as the code is, not judged',
+               'the block of the HEAD element applied to the xsi:type of a substitute is an extra rule of the '
+               'library (groups.py:908-915): modelled and proved as it is, not judged by the property evaluation',
+               'a step from a union to one of its member types carries no derivation method; cases where such a '
+               'step meets a non-empty block are compared with the model but not judged',
+               'no inherited attributes in type alternatives; no identity-constraint widening for xsi types']
 
 T = 'urn:t'
 XSD = 'http://www.w3.org/2001/XMLSchema'
@@ -311,7 +331,7 @@ def spec_subst(s: dict, head: dict, m: dict) -> str:
 
 
 # ---------------------------------------------------------------- real code: build + introspect
-def introspect(schema: Any) -> Optional[dict]:
+def introspect(schema: Any, extra: Any = ()) -> Optional[dict]:
     from xmlschema.validators import XsdComplexType, XsdSimpleType, XsdUnion
     objs: list[Any] = []
 
@@ -333,6 +353,10 @@ def introspect(schema: Any) -> Optional[dict]:
             visit(pt)
         objs.append(t)
     for t in schema.types.values():
+        visit(t)
+    for e in schema.elements.values():
+        visit(e.type)
+    for t in extra:
         visit(t)
     idx = {id(o): i for i, o in enumerate(objs)}
     types = []
@@ -385,7 +409,7 @@ ERRS = [
     (re.compile(r'^must have the fixed value'), 'fixedValue'),
     (re.compile(r"^can't use an abstract"), 'abstractElement'),
     (re.compile(r'^substitution of .* is blocked$'), 'substBlocked'),
-    (re.compile(r'blocked by head element'), 'substBlocked'),
+    (re.compile(r'blocked by head element'), 'headBlocked'),
 ]
 
 
@@ -397,7 +421,8 @@ def kinds_of(errs: list) -> list[str]:
         k = 'content'
         if isinstance(e, XMLSchemaChildrenValidationError):
             k = 'children'
-        elif isinstance(e.validator, XsdElement) or 'substitution of' in r or 'blocked by head' in r:
+        elif isinstance(e.validator, XsdElement) or 'substitution of' in r or 'blocked by head' in r \
+                or ' cannot substitute ' in r or re.search(r"global component .* not found", r):
             for rx, kind in ERRS:
                 if rx.search(r):
                     k = kind
@@ -552,6 +577,54 @@ def run_schema(ctx: Ctx, drv: Optional[Driver], s: dict, v11: bool) -> None:
             ctx.case({'v': ver, 'types': g['types'], 'elems': g['elems'], 'h': h['name'], 'm': m['name']}, True,
                      tag=f'{ver}/substitution')
             ctx.count('subst:' + real)
+    # ---- a substitute that carries xsi:type (check_dynamic_context + the member's own raw_decode)
+    for h in s['elems']:
+        for m in s['elems']:
+            if m is h or spec_subst(s, h, m) == 'notSubstitute':
+                continue
+            cands = [t for t in tnames if chain_methods(byname, t, m['type']) is not None]
+            others = [t for t in tnames if t not in cands]
+            picks = cands
+            for xsi in picks + (ctx.rng.sample(others, 1) if others else []) + ['Nope']:
+                gk = byname[xsi]['kind'] if xsi in byname else byname[m['type']]['kind']
+                text = None if gk == 'complex' else '5'
+                root = ET.Element('{%s}r_%s' % (T, h['name']))
+                kid = ET.SubElement(root, '{%s}%s' % (T, m['name']), {XSI_TYPE: 't:' + xsi})
+                kid.text = text
+                kinds = kinds_of(list(schema.iter_errors(root, namespaces=NS)))
+                case = {'v': ver, 'schema': s, 'head': h['name'], 'member': m['name'], 'xsi': xsi}
+                cv = (0, text, [])
+                ms_h = chain_methods(byname, xsi, h['type']) if xsi in byname else None
+                head_rule = ms_h is not None and xsi != h['type'] and bool(set(ms_h) & eff_block(s, h))
+                want = spec_subst(s, h, m) == 'accepted' and spec_element(s, m, xsi, None, cv)
+                if not head_rule and want != (not kinds):
+                    # the head's block applied to the xsi type is the library's own extra rule: not judged
+                    f1_head = (xsi in byname and byname[xsi]['kind'] == 'sc' and byname[h['type']]['kind'] == 'simple'
+                               and kinds == ['headBlocked'] and 'restriction' in eff_block(s, h)
+                               and 'extension' not in eff_block(s, h) and ms_h is not None
+                               and set(ms_h) == {'extension'} and len(ms_h) >= 2
+                               and any(e['id'] == 'C07-F1' and e.get('status') == 'known' for e in load_findings()))
+                    if f1_head or known_match({'schema': s, 'element': m['name'], 'xsi': xsi},
+                                   {'error_kinds': kinds, 'expected_valid': want}) \
+                            or known_match({'schema': s, 'head': h['name'], 'member': m['name']},
+                                           {'real': 'blocked' if 'substBlocked' in kinds else 'accepted',
+                                            'want': spec_subst(s, h, m)}):
+                        ctx.known_hit('C07-F1')
+                    else:
+                        ctx.failure('substitute with xsi:type %s by the library but %s by the property' % (
+                            ('accepted', 'invalid') if not kinds else ('rejected', 'valid')), case,
+                            {'error_kinds': kinds})
+                vid = variants.setdefault((text, ()), len(variants))
+                xq: Any = g['names'][xsi] if xsi in g['names'] else 'unknown'
+                queries.append({'op': 'substx', 'head': g['eidx'][h['name']], 'm': g['eidx'][m['name']], 'xsi': xq,
+                                'nil': None, 'text': text is not None, 'children': False, 'variant': vid * 2})
+                pend.append(('substx', case, kinds))
+                ctx.case({'v': ver, 'types': g['types'], 'elems': g['elems'], 'h': h['name'], 'm': m['name'],
+                          'xsi': xq}, True, tag=f'{ver}/substitution+xsi')
+                for kk in kinds:
+                    ctx.count('substx:' + kk)
+                if not kinds:
+                    ctx.count('substx:accepted')
     # ---- (2) compare with the Lean model
     if drv is not None:
         cok, fok = [], []
@@ -584,6 +657,12 @@ def run_schema(ctx: Ctx, drv: Optional[Driver], s: dict, v11: bool) -> None:
                 if mk != [k for k in real if k != 'children'] + (['content'] if 'children' in real and 'content' not in real else []) \
                         and sorted(set(mk)) != sorted({('content' if k == 'children' else k) for k in real}):
                     ctx.mismatch('element checks', case, real, mk)
+            elif op == 'substx':
+                if m['errs'] is None:
+                    if 'children' not in real and 'abstractElement' not in real:
+                        ctx.mismatch('substitute with xsi:type (model: not a substitute)', case, real, None)
+                elif sorted(set(m['errs'])) != sorted({('content' if k == 'children' else k) for k in real}):
+                    ctx.mismatch('substitute with xsi:type', case, real, sorted(set(m['errs'])))
             elif op == 'subst':
                 ebn = {e['name']: e for e in s['elems']}
                 exact = not ebn[case['member']]['abstract'] and not ebn[case['head']]['abstract']
@@ -591,6 +670,260 @@ def run_schema(ctx: Ctx, drv: Optional[Driver], s: dict, v11: bool) -> None:
                 # reports whichever it meets first: only accepted/rejected is compared there
                 if (m['v'] == 'accepted') != (real == 'accepted') or (exact and m['v'] != real):
                     ctx.mismatch('substitution verdict', case, real, m['v'])
+
+
+
+# ---------------------------------------------------------------- simple kinds: builtins, lists, unions, ur-types
+XS = '{%s}' % XSD
+# name -> (base, method) by the XSD reading (primitive types derive from xs:anySimpleType by restriction,
+# root complex types from xs:anyType by restriction; list and union types from xs:anySimpleType)
+K_BASE = {
+    'xs:anyType': (None, None), 'xs:anySimpleType': ('xs:anyType', 'restriction'),
+    'xs:decimal': ('xs:anySimpleType', 'restriction'), 'xs:integer': ('xs:decimal', 'restriction'),
+    'xs:long': ('xs:integer', 'restriction'), 'xs:int': ('xs:long', 'restriction'),
+    'xs:short': ('xs:int', 'restriction'), 'xs:boolean': ('xs:anySimpleType', 'restriction'),
+    'S0': ('xs:int', 'restriction'), 'S1': ('S0', 'restriction'), 'B0': ('xs:boolean', 'restriction'),
+    'L0': ('xs:anySimpleType', 'restriction'), 'L1': ('L0', 'restriction'),
+    'U0': ('xs:anySimpleType', 'restriction'), 'U1': ('U0', 'restriction'), 'U2': ('U1', 'restriction'),
+    'UU': ('xs:anySimpleType', 'restriction'),
+    'SC0': ('S0', 'extension'), 'SC1': ('SC0', 'extension'), 'SCU': ('U0', 'extension'),
+    'SCR': ('SC1', 'restriction'), 'SCX': ('SCR', 'extension'),
+    'C0': ('xs:anyType', 'restriction'), 'C1': ('C0', 'extension'), 'C2': ('C1', 'restriction'),
+}
+K_COMPLEX = {'xs:anyType', 'SC0', 'SC1', 'SCU', 'SCR', 'SCX', 'C0', 'C1', 'C2'}
+K_NODERIV = {'xs:decimal', 'xs:integer', 'xs:long', 'xs:int', 'xs:short', 'xs:boolean', 'L0', 'U0', 'UU',
+             'xs:anySimpleType'}          # library: `derivation` is None
+
+
+def gen_kinds(rng) -> dict:
+    u0 = rng.choice([['S0', 'B0'], ['S1', 'B0'], ['xs:int', 'B0'], ['B0', 'S0']])
+    uu = rng.choice([['U0', 'L0'], ['L0', 'U0'], ['U0', 'L1']])
+    decl = ['xs:anyType', 'xs:anySimpleType', 'xs:integer', 'xs:int', 'S0', 'L0', 'U0', 'U1', 'UU', 'SC0', 'C0']
+    elems = []
+    for i, ty in enumerate(decl):
+        for b in rng.sample(['', 'extension', 'restriction', '#all'], 2):
+            elems.append({'name': 'k%d%s' % (i, {'': 'n', '#all': 'a'}.get(b, b[:1])), 'type': ty, 'block': b})
+    return {'kinds': True, 'members': {'U0': u0, 'UU': uu}, 'item': {'L0': 'S0'}, 'elems': elems,
+            'tblock': {n: rng.choice(BLOCKS_T) for n in ('SC0', 'SC1', 'C0', 'C1', 'C2')}}
+
+
+def kinds_xsd(k: dict) -> str:
+    def q(n: str) -> str:
+        return n if n.startswith('xs:') else 't:' + n
+
+    def blk(n: str) -> str:
+        b = k['tblock'].get(n)
+        return '' if b is None else ' block="%s"' % b
+    out = [f'<xs:schema xmlns:xs="{XSD}" targetNamespace="{T}" xmlns:t="{T}" elementFormDefault="qualified">',
+           '<xs:simpleType name="S0"><xs:restriction base="xs:int"><xs:maxInclusive value="100"/></xs:restriction></xs:simpleType>',
+           '<xs:simpleType name="S1"><xs:restriction base="t:S0"><xs:maxInclusive value="50"/></xs:restriction></xs:simpleType>',
+           '<xs:simpleType name="B0"><xs:restriction base="xs:boolean"/></xs:simpleType>',
+           '<xs:simpleType name="L0"><xs:list itemType="t:S0"/></xs:simpleType>',
+           '<xs:simpleType name="L1"><xs:restriction base="t:L0"><xs:maxLength value="2"/></xs:restriction></xs:simpleType>',
+           '<xs:simpleType name="U0"><xs:union memberTypes="%s"/></xs:simpleType>' % ' '.join(map(q, k['members']['U0'])),
+           '<xs:simpleType name="U1"><xs:restriction base="t:U0"><xs:enumeration value="5"/><xs:enumeration value="true"/></xs:restriction></xs:simpleType>',
+           '<xs:simpleType name="U2"><xs:restriction base="t:U1"><xs:enumeration value="5"/></xs:restriction></xs:simpleType>',
+           '<xs:simpleType name="UU"><xs:union memberTypes="%s"/></xs:simpleType>' % ' '.join(map(q, k['members']['UU']))]
+    for n, a in (('SC0', 'kSC0'), ('SC1', 'kSC1'), ('SCU', 'kSCU'), ('SCX', 'kSCX')):
+        out.append(f'<xs:complexType name="{n}"{blk(n)}><xs:simpleContent><xs:extension base="{q(K_BASE[n][0])}">'
+                   f'<xs:attribute name="{a}"/></xs:extension></xs:simpleContent></xs:complexType>')
+        if n == 'SC1':
+            out.append('<xs:complexType name="SCR"><xs:simpleContent><xs:restriction base="t:SC1"><xs:maxInclusive '
+                       'value="60"/></xs:restriction></xs:simpleContent></xs:complexType>')
+    out.append(f'<xs:complexType name="C0"{blk("C0")}><xs:sequence><xs:element name="x" type="xs:int" minOccurs="0"/>'
+               '</xs:sequence></xs:complexType>')
+    out.append(f'<xs:complexType name="C1"{blk("C1")}><xs:complexContent><xs:extension base="t:C0"><xs:sequence>'
+               '<xs:element name="y" type="xs:int" minOccurs="0"/></xs:sequence></xs:extension></xs:complexContent>'
+               '</xs:complexType>')
+    out.append(f'<xs:complexType name="C2"{blk("C2")}><xs:complexContent><xs:restriction base="t:C1"><xs:sequence>'
+               '<xs:element name="x" type="xs:int" minOccurs="0"/></xs:sequence></xs:restriction></xs:complexContent>'
+               '</xs:complexType>')
+    for e in k['elems']:
+        out.append(f'<xs:element name="{e["name"]}" type="{q(e["type"])}" block="{e["block"]}"/>')
+    out.append('</xs:schema>')
+    return '\n'.join(out)
+
+
+def k_paths(k: dict, t: str, u: str, seen: tuple = ()) -> list[tuple[list[str], bool]]:
+    """all derivation paths from t to u by the XSD reading: (methods of the base-type steps, uses a union
+    member step?).  A (facet-less, unrestricted) union admits what is derived from a member type."""
+    out: list[tuple[list[str], bool]] = []
+    ms: list[str] = []
+    cur: Optional[str] = t
+    while cur is not None:
+        if cur == u:
+            out.append((list(ms), False))
+            break
+        b, m = K_BASE[cur]
+        if b is not None:
+            ms.append(m)
+        cur = b
+    if u in k['members'] and u not in seen:
+        for m in k['members'][u]:
+            for pm, _ in k_paths(k, t, m, seen + (u,)):
+                out.append((pm, True))
+    return out
+
+
+def k_block(k: dict, e: dict) -> set:
+    b = set(METHS) if e['block'] == '#all' else set(e['block'].split())
+    tb = k['tblock'].get(e['type'])
+    if tb:
+        b |= set(METHS) if tb == '#all' else set(tb.split()) & set(METHS)
+    return b & set(METHS)
+
+
+def kinds_known(k: dict, what: str, t: str, u: str, d: Optional[str], real: bool, blk: Optional[set] = None) -> Optional[str]:
+    """exact matchers of C07-F1..F5 on the kinds family (see notes/findings/C07.json)"""
+    st = {e['id']: e.get('status') for e in load_findings()}
+
+    def on(fid: str) -> Optional[str]:
+        return fid if st.get(fid) == 'known' else None
+
+    def chain(x: str) -> list[str]:
+        out = [x]
+        while K_BASE[out[-1]][0] is not None:
+            out.append(K_BASE[out[-1]][0])
+        return out
+    lists = [x for x in chain(t) if x in k['item']]
+    if what == 'derived' and d is None:
+        if real and lists and k['item'][lists[0]] == u:
+            return on('C07-F2')                       # list "derived" from its item type
+        if real and lists and not k_paths(k, t, u) and k_paths(k, k['item'][lists[0]], u):
+            return on('C07-F2')                       # ... and so from what the item type derives from
+        if not real and u in k['members']:
+            # union target: the walk up the base types is cut, list receivers have no union branch
+            if lists or any(x in ('U1', 'U2', 'L1') or x in k['members'] for x in chain(t)[1:]) or t in ('L0', 'L1'):
+                return on('C07-F3')
+        return None
+    if what == 'blocked' and blk is not None:
+        paths = k_paths(k, t, u)
+        if real and t == u == 'xs:anyType' and 'restriction' in blk:
+            return on('C07-F6')                       # two xs:anyType objects: the identity shortcut fails
+        if real and 'extension' in blk and 'restriction' not in blk and t not in K_COMPLEX \
+                and any(x in K_NODERIV for x in chain(t)):
+            return on('C07-F4')                       # simple type reported as derived by extension
+        if real and 'restriction' in blk and 'extension' not in blk and t in ('SC1', 'SCX', 'SCR') \
+                and paths and all('restriction' not in pm for pm, _ in paths):
+            return on('C07-F1')
+        if real and 'restriction' in blk and 'extension' not in blk and t in ('SC1', 'SCX') \
+                and any(x in K_COMPLEX and k_paths(k, 'S0', u) is not None for x in chain(t)):
+            return on('C07-F1') if u in ('S0',) or ('S0' in [m for mm in k['members'].values() for m in mm]) else None
+        if not real and u == 'xs:anyType' and 'extension' in blk and 'restriction' not in blk and t in K_COMPLEX:
+            return on('C07-F5')                       # pending 'extension' answered at xs:anyType
+    return None
+
+
+def run_kinds(ctx: Ctx, drv: Optional[Driver], k: dict, v11: bool) -> None:
+    import xmlschema
+    ver = '1.1' if v11 else '1.0'
+    xsd = kinds_xsd(k)
+    case0 = {'v': ver, 'kinds': k}
+    try:
+        schema = (xmlschema.XMLSchema11 if v11 else xmlschema.XMLSchema10)(xsd)
+    except xmlschema.XMLSchemaException as ex:
+        ctx.failure('generated schema refused by the library', case0, {'message': str(ex)[:400], 'xsd': xsd})
+        return
+    names = sorted(K_BASE)
+
+    def obj(n: str) -> Any:
+        return schema.maps.types[(XS + n[3:]) if n.startswith('xs:') else '{%s}%s' % (T, n)]
+    g = introspect(schema, [obj(n) for n in names])
+    ctx.count(f'{ver}/kinds-schemas')
+    ix = {n: g['idx'][id(obj(n))] for n in names}
+    queries: list = []
+    pend: list = []
+    # ---- is_derived on all named pairs (plain: against the XSD reading; with a method: model only)
+    for t in names:
+        for u in names:
+            for d in (None, 'extension', 'restriction'):
+                real = bool(obj(t).is_derived(obj(u), d))
+                case = {'v': ver, 'kinds': k, 't': t, 'u': u, 'd': d}
+                queries.append({'op': 'derived', 't': ix[t], 'u': ix[u], 'd': d})
+                pend.append(('derived', case, real))
+                if d is None:
+                    want = t == u or u == 'xs:anyType' or bool(k_paths(k, t, u))
+                    ctx.case({'v': ver, 'k': k['members'], 't': t, 'u': u}, t != u, tag=f'{ver}/kinds-derived')
+                    if real != want:
+                        fid = kinds_known(k, 'derived', t, u, None, real)
+                        if fid:
+                            ctx.known_hit(fid)
+                        else:
+                            ctx.failure('is_derived differs from the derivation relation of the declared types '
+                                        '(base types, union members)', case, {'is_derived': real, 'expected': want})
+            # get_instance_type
+            try:
+                schema.maps.get_instance_type(('xs:' + t[3:]) if t.startswith('xs:') else 't:' + t, obj(u),
+                                              {'xs': XSD, 't': T})
+                real_i = True
+            except (KeyError, TypeError):
+                real_i = False
+            queries.append({'op': 'inst', 't': ix[t], 'u': ix[u]})
+            pend.append(('inst', {'v': ver, 'kinds': k, 't': t, 'u': u, 'op': 'inst'}, real_i))
+    # ---- instances: every named type as xsi:type of every element
+    eidx = g['eidx']
+    for e in k['elems']:
+        u = e['type']
+        blk = k_block(k, e)
+        for t in names:
+            el = ET.Element('{%s}%s' % (T, e['name']), {XSI_TYPE: t if t.startswith('xs:') else 't:' + t})
+            el.text = '5'
+            kinds = [x for x in kinds_of(list(schema.iter_errors(el, namespaces={'t': T, 'xs': XSD, 'xsi': XSI})))
+                     if x in ('unknownType', 'notDerived', 'blocked', 'abstractType')]
+            case = {'v': ver, 'kinds': k, 'element': e['name'], 'xsi': t}
+            ctx.case({'v': ver, 'k': k['members'], 'e': e, 'xsi': t}, True, tag=f'{ver}/kinds-xsi')
+            queries.append({'op': 'elem', 'e': eidx[e['name']], 'declTy': ix[u], 'xsi': ix[t], 'nil': None,
+                            'text': True, 'children': False, 'variant': 0})
+            pend.append(('kelem', case, kinds))
+            real_b = bool(obj(t).is_blocked(schema.elements[e['name']]))
+            queries.append({'op': 'blocked', 't': ix[t], 'e': eidx[e['name']]})
+            pend.append(('blocked', {'v': ver, 'kinds': k, 't': t, 'e': e['name']}, real_b))
+            # independent reading: derived, and no base-type step of a path uses a blocked method
+            paths = [([], False)] if t == u else k_paths(k, t, u)
+            if u == 'xs:anyType' and not paths:
+                paths = k_paths(k, t, 'xs:anyType')
+            if not paths:
+                want_ok: Optional[bool] = False
+            elif t == u:
+                want_ok = True
+            elif any(j for _, j in paths) and blk:
+                want_ok = None        # member step under a block: the property does not say; not judged
+            else:
+                want_ok = any(not (set(pm) & blk) for pm, _ in paths)
+            if want_ok is not None and want_ok != (not [x for x in kinds if x != 'abstractType']):
+                fid = None
+                if 'blocked' in kinds or (want_ok is False and not kinds):
+                    fid = kinds_known(k, 'blocked', t, u, None, 'blocked' in kinds, blk)
+                if fid is None and ('notDerived' in kinds) != (not paths):
+                    fid = kinds_known(k, 'derived', t, u, None, 'notDerived' not in kinds)
+                if fid:
+                    ctx.known_hit(fid)
+                else:
+                    ctx.failure('xsi:type %s by the library but %s by the derivation/block rules' % (
+                        ('accepted', 'not acceptable') if not kinds else ('rejected', 'acceptable')), case,
+                        {'error_kinds': kinds, 'paths': paths, 'block': sorted(blk)})
+            for x in kinds:
+                ctx.count('kinds-err:' + x)
+    if drv is not None:
+        allv = [[i, 0] for i in range(len(g['types']))]
+        ans = drv.query([{'types': g['types'], 'elems': g['elems'], 'contentOk': allv, 'fixedOk': allv,
+                          'quirks': active_quirks(), 'queries': queries}])[0]
+        if 'err' in ans:
+            ctx.mismatch('driver error', case0, None, ans)
+            return
+        for (op, case, real), m in zip(pend, ans['res']):
+            ctx.traces += 1
+            if op in ('derived', 'blocked', 'inst'):
+                if m['r'] is None:
+                    ctx.mismatch(op + ' (model undecided)', case, real, m)
+                elif m['r'] != real:
+                    ctx.mismatch(op, case, real, m['r'])
+                elif m['rr'] != m['r']:
+                    ctx.count('kinds-pinned-differs-from-repaired:' + op)
+            else:
+                mk = sorted({x for x in m['errs'] if x in ('unknownType', 'notDerived', 'blocked', 'abstractType')})
+                if mk != sorted(real):
+                    ctx.mismatch('xsi:type checks (kinds family)', case, real, mk)
 
 
 # ---------------------------------------------------------------- XSD 1.1 type alternatives (fixed family)
@@ -661,6 +994,101 @@ def run_alternatives(ctx: Ctx, drv: Optional[Driver]) -> None:
                 ctx.mismatch('type alternative selection', case, real, sel)
 
 
+
+# ---------------------------------------------------------------- XSD 1.1 type alternatives: generated tests
+def gen_test(rng, depth: int = 0) -> list:
+    r = rng.random()
+    if depth >= 2 or r < 0.45:
+        a = rng.choice(['k', 'j'])
+        c = rng.random()
+        if c < 0.4:
+            return ['eq', a, rng.choice(['a', 'b'])]
+        if c < 0.75:
+            return ['ne', a, rng.choice(['a', 'b'])]
+        return ['has', a]
+    if r < 0.6:
+        return ['not', gen_test(rng, depth + 1)]
+    return [rng.choice(['and', 'or']), gen_test(rng, depth + 1), gen_test(rng, depth + 1)]
+
+
+def render_test(t: list) -> str:
+    op = t[0]
+    if op == 'eq':
+        return "@%s = '%s'" % (t[1], t[2])
+    if op == 'ne':
+        return "@%s != '%s'" % (t[1], t[2])
+    if op == 'has':
+        return '@' + t[1]
+    if op == 'not':
+        return 'not(%s)' % render_test(t[1])
+    return '(%s %s %s)' % (render_test(t[1]), op, render_test(t[2]))
+
+
+def py_test(t: list, attrs: dict) -> bool:
+    """independent reading of the XPath subset: a comparison with a missing attribute is false"""
+    op = t[0]
+    if op == 'eq':
+        return t[1] in attrs and attrs[t[1]] == t[2]
+    if op == 'ne':
+        return t[1] in attrs and attrs[t[1]] != t[2]
+    if op == 'has':
+        return t[1] in attrs
+    if op == 'not':
+        return not py_test(t[1], attrs)
+    if op == 'and':
+        return py_test(t[1], attrs) and py_test(t[2], attrs)
+    return py_test(t[1], attrs) or py_test(t[2], attrs)
+
+
+def run_alt_tests(ctx: Ctx, drv: Optional[Driver], n_tables: int) -> None:
+    import xmlschema
+    types = ['A0', 'A1', 'A2', 'A3']
+    queries, pend = [], []
+    body = ''.join(
+        f'<xs:complexType name="{n}"><xs:complexContent><xs:extension base="t:A0"><xs:sequence>'
+        f'<xs:element name="p{n}" type="xs:int"/></xs:sequence></xs:extension></xs:complexContent></xs:complexType>'
+        for n in types[1:])
+    for _ in range(n_tables):
+        table = [[gen_test(ctx.rng), ctx.rng.choice(types[1:])] for _ in range(ctx.rng.randint(1, 4))]
+        if ctx.rng.random() < 0.4:
+            table.append([None, ctx.rng.choice(types[1:])])
+        alts = ''.join('<xs:alternative %stype="t:%s"/>' % (
+            ('test="%s" ' % render_test(t)) if t is not None else '', ty) for t, ty in table)
+        xsd = (f'<xs:schema xmlns:xs="{XSD}" targetNamespace="{T}" xmlns:t="{T}" elementFormDefault="qualified">'
+               f'<xs:complexType name="A0"><xs:sequence/><xs:attribute name="k"/><xs:attribute name="j"/>'
+               f'</xs:complexType>{body}<xs:element name="e" type="t:A0">{alts}</xs:element></xs:schema>')
+        schema = xmlschema.XMLSchema11(xsd)
+        xe = schema.elements['e']
+        for kv in (None, 'a', 'b', 'c'):
+            for jv in (None, 'a', 'b'):
+                attrs = {a: v for a, v in (('k', kv), ('j', jv)) if v is not None}
+                el = ET.Element('{%s}e' % T, dict(attrs))
+                real_ty = xe.get_alternative_type(el).local_name
+                want_ty = next((ty for t, ty in table if t is None or py_test(t, attrs)), 'A0')
+                case = {'v': '1.1', 'alt_tests': table, 'attrs': attrs}
+                if want_ty != 'A0':
+                    ET.SubElement(el, '{%s}p%s' % (T, want_ty)).text = '1'
+                valid = schema.is_valid(el, namespaces=NS)
+                if real_ty != want_ty or not valid:
+                    ctx.failure('governing type is not that of the first alternative whose test holds', case,
+                                {'selected': real_ty, 'first_matching': want_ty, 'valid_for_it': valid,
+                                 'tests': [render_test(t) if t else None for t, _ in table]})
+                ctx.case(case, True, tag='1.1/alternative-tests')
+                ctx.count('alt-selected:' + ('default' if real_ty == 'A0' else 'alternative'))
+                queries.append({'op': 'altT', 'attrs': [[a, v] for a, v in attrs.items()],
+                                'alts': [[t, types.index(ty)] for t, ty in table], 'dflt': 0})
+                pend.append((case, real_ty))
+    if drv is not None and queries:
+        ans = drv.query([{'types': [], 'elems': [], 'contentOk': [], 'fixedOk': [], 'queries': queries}])[0]
+        if 'err' in ans:
+            ctx.mismatch('driver error', {'alt_tests': True}, None, ans)
+            return
+        for (case, real_ty), m in zip(pend, ans['res']):
+            ctx.traces += 1
+            if types[m['ty']] != real_ty:
+                ctx.mismatch('type alternative selection (evaluated tests)', case, real_ty, types[m['ty']])
+
+
 # ---------------------------------------------------------------- entry points
 QUIRK_IDS = ['C07-F1', 'C07-F2', 'C07-F3', 'C07-F4', 'C07-F5']
 
@@ -672,10 +1100,15 @@ def active_quirks() -> list[str]:
 
 
 def load_findings() -> list[dict]:
+    """notes/findings/C07.json; C07_ASSUME_FIXED="C07-F1,C07-F3" treats these ids as fixed (to try the check
+    against a tree with notes/fixes/C07-is-derived.patch applied before the entries are flipped)"""
+    import os
     try:
-        return json.loads((VERIF / 'notes' / 'findings' / 'C07.json').read_text())['findings']
+        out = json.loads((VERIF / 'notes' / 'findings' / 'C07.json').read_text())['findings']
     except (OSError, ValueError, KeyError):
         return []
+    assume = set(filter(None, os.environ.get('C07_ASSUME_FIXED', '').split(',')))
+    return [dict(e, status='fixed') if e['id'] in assume else e for e in out]
 
 
 def known_match(case: dict, detail: Any) -> Optional[str]:
@@ -725,7 +1158,10 @@ def explore(ctx: Ctx, drv: Optional[Driver], n: int) -> None:
     for v11 in (False, True):
         for _ in range(n):
             run_schema(ctx, drv, gen_schema(ctx.rng), v11)
+        for _ in range(max(3, n // 4)):
+            run_kinds(ctx, drv, gen_kinds(ctx.rng), v11)
     run_alternatives(ctx, drv)
+    run_alt_tests(ctx, drv, max(40, 4 * n))
 
 
 def run(ctx: Ctx, driver_ok: bool) -> None:
